@@ -13,7 +13,11 @@
 (* A program is generated as a behaviour (AddCall / AddFlush); the         *)
 (* invariants are evaluated on every program followed by a final flush.    *)
 (*                                                                         *)
-(* Call  = [op, id, ty, g, avg, sym]                                       *)
+(* Call  = [op, id, ty, g, avg, sym, inst]                                 *)
+(*   inst "both" | "first" | "second": which INSTANCE of the role's group   *)
+(*        performs the call ("first" = the row / column containing rank 0), *)
+(*        so that ranks of one group may see different traffic on their     *)
+(*        OTHER groups (rank-asymmetric programs)                           *)
 (*   op "ar"  unbucketed allreduce, "arb" bucketed, "flush"                *)
 (*   ty  index into Types: [bytes, symbytes, dt, square]                   *)
 (* Wire op = [g |-> group role actually used, ids |-> <<tensor ids>>,      *)
@@ -30,6 +34,7 @@ CONSTANTS
                 \* "mixed": dtypes are fused (what the pinned code did)
     Types,      \* sequence of tensor types
     Roles,      \* group roles programs may use
+    Insts,      \* subset of {"both", "first", "second"}
     MaxCalls
 \* END-CONSTANTS
 
@@ -39,6 +44,13 @@ GroupOf(r, role) ==
       [] role = "row"   -> IF r \in {0, 1} THEN {0, 1} ELSE {2, 3}
       [] role = "col"   -> IF r \in {0, 2} THEN {0, 2} ELSE {1, 3}
       [] role = "self"  -> {r}
+
+Participates(r, c) ==
+    \/ c.op = "flush"
+    \/ c.inst = "both"
+    \/ c.g \in {"world", "self"}
+    \/ (c.inst = "first" /\ 0 \in GroupOf(r, c.g))
+    \/ (c.inst = "second" /\ 0 \notin GroupOf(r, c.g))
 
 Key(r, role) ==
     IF KeyMode = "group" THEN GroupOf(r, role)
@@ -68,7 +80,8 @@ RemoveAt(s, i) == SubSeq(s, 1, i - 1) \o SubSeq(s, i + 1, Len(s))
 \* (flush) and re-assigned later, so entries are never removed: live = FALSE
 \* stands for "None".
 Step(r, st, c) ==
-    IF c.op = "flush"
+    IF ~Participates(r, c) THEN st
+    ELSE IF c.op = "flush"
     THEN LET RECURSIVE FlushFrom(_, _)
              FlushFrom(s, i) ==
                  IF i > Len(s.open) THEN s
@@ -109,7 +122,7 @@ RECURSIVE RunRec(_, _, _)
 RunRec(r, st, prog) ==
     IF prog = <<>> THEN st ELSE RunRec(r, Step(r, st, Head(prog)), Tail(prog))
 FlushCall == [op |-> "flush", id |-> 0, ty |-> 1, g |-> "world",
-              avg |-> FALSE, sym |-> FALSE]
+              avg |-> FALSE, sym |-> FALSE, inst |-> "both"]
 Run(r, prog) == RunRec(r, EmptyComm, Append(prog, FlushCall))
 
 ---------------------------------------------------------------------------
@@ -119,10 +132,12 @@ NextId == Len(SelectSeq(prog, LAMBDA c : c.op # "flush")) + 1
 AddCall ==
     /\ Len(prog) < MaxCalls
     /\ \E op \in {"ar", "arb"} : \E ty \in DOMAIN Types : \E g \in Roles :
-       \E sym \in BOOLEAN :
+       \E sym \in BOOLEAN : \E inst \in Insts :
+          /\ (g \in {"world", "self"}) => inst = "both"
           \* `average` does not influence bucketing: alternate it by position
-          prog' = Append(prog, [op |-> op, id |-> NextId, ty |-> ty, g |-> g,
-                                avg |-> (NextId % 2 = 1), sym |-> sym])
+          /\ prog' = Append(prog, [op |-> op, id |-> NextId, ty |-> ty, g |-> g,
+                                   avg |-> (NextId % 2 = 1), sym |-> sym,
+                                   inst |-> inst])
 AddFlush ==
     /\ Len(prog) < MaxCalls /\ prog # <<>> /\ prog[Len(prog)].op # "flush"
     /\ prog' = Append(prog, FlushCall)
@@ -143,7 +158,7 @@ Occurrences(st, id) ==
 ExactlyOnce ==
     \A r \in Ranks : LET st == Run(r, prog) IN
         \A i \in DOMAIN Calls : LET id == Calls[i].id IN
-            IF id \in st.direct \cup st.rejected
+            IF id \in st.direct \cup st.rejected \/ ~Participates(r, Calls[i])
             THEN Occurrences(st, id) = 0
             ELSE Occurrences(st, id) = 1
 
